@@ -43,6 +43,7 @@ Definition ev_code (e : ev) : list Z :=
   | VUltCheck rs => 31 :: Z.of_nat (length rs) :: flat_map (fun r => [fst (fst r); snd (fst r); snd r]) rs
   | VCall k i p => [32; k; i; p]
   | VSample c e o => 33 :: zl c ++ zl e ++ zl o
+  | VDeathSeen t k => [34; t; k]
   end.
 
 Definition ev_eqb (a b : ev) : bool := list_eqb Z.eqb (ev_code a) (ev_code b).
@@ -93,3 +94,21 @@ Definition model_diff (c : case) :=
   | None => None
   | Some (st, tr, r, av) => Some (st, first_diff 0 tr (snd (fst (fst (snd c)))), r, av)
   end.
+
+(* ---- monitors: the properties' own predicates on what the implementation did ---- *)
+From SR Require Import Model.SimProtocol.
+
+Definition nchars_of (c : config) : Z := Z.of_nat (length (filter d_char (c_units c))).
+
+Definition monitor_case (c : case) : bool :=
+  let '(st, tr, r, av) := snd c in
+  match st with
+  | RFinished =>
+      protocol_ok tr && one_termination tr && death_ok tr && killer_ok_from [] None tr &&
+      result_ok (nchars_of (fst c)) (Z.of_nat (length (c_units (fst c)))) tr r av
+  | _ => true
+  end.
+
+Definition monitor_detail (c : case) :=
+  let '(st, tr, r, av) := snd c in
+  (protocol_ok tr, one_termination tr, death_ok tr, killer_ok_from [] None tr, result_ok (nchars_of (fst c)) (Z.of_nat (length (c_units (fst c)))) tr r av).
